@@ -1016,3 +1016,95 @@ def geom_table_maps(repo, res):
         if missing:
             res.fail(key, f"accessors read the tables {missing} but the {nm} generator never declares them: the generated C references an undeclared identifier",
                      mod_.line(f_.node))
+
+
+def _camel2underscore(name: str) -> str:
+    s1 = re.sub(r"(.)([A-Z][a-z]+)", r"\1_\2", name)
+    return re.sub(r"([a-z0-9])([A-Z])", r"\1_\2", s1).lower()
+
+
+@rule(
+    "TERMINAL-DISPATCH",
+    ["C01", "C02", "C03"],
+    "the two terminal dispatch tables (access.call_lookup, definitions.handler_lookup) send every UFL terminal class to its "
+    "own handler (class name in snake case; CellOrientation -> _pass; definitions: Coefficient -> coefficient, Jacobian and "
+    "SpatialCoordinate -> the coordinate-dof linear combination, everything else -> pass_through); a class routed to another "
+    "class's handler is a violation, an unknown handler name an analysis error. No code generator rewrites the table reference "
+    "it was given (`tabledata = ...`, `tabledata._replace(...)`): flags such as is_permuted come from the IR",
+    min_instances=30,
+)
+def terminal_dispatch(repo, res):
+    am = repo.mod("ffcx.codegeneration.access")
+    dm = repo.mod("ffcx.codegeneration.definitions")
+
+    def table(mod, cls, attr):
+        f = mod.func(f"{cls}.__init__")
+        res.functions.add(f.key)
+        for n in ast.walk(f.node):
+            if isinstance(n, ast.Assign) and isinstance(n.targets[0], ast.Attribute) and n.targets[0].attr == attr and isinstance(n.value, ast.Dict):
+                out = {}
+                for k, v in zip(n.value.keys, n.value.values):
+                    if not (isinstance(v, ast.Attribute) and isinstance(v.value, ast.Name) and v.value.id == "self"):
+                        raise AnalysisError(f"{cls}.{attr}: value `{ast.unparse(v)}` is not a bound method")
+                    out[ast.unparse(k).split(".")[-1]] = (v.attr, n)
+                return f, out
+        raise AnalysisError(f"{cls}.{attr} not found")
+
+    fa, acc = table(am, "FFCXBackendAccess", "call_lookup")
+    special = {"CellOrientation": {"_pass"}, "ReferenceNormal": {"reference_normal"}}
+    conv = {k: special.get(k, {_camel2underscore(k)}) for k in acc}
+    all_conv = set().union(*conv.values())
+    for k, (meth, node) in acc.items():
+        key = f"{fa.key}:call_lookup:{k}"
+        res.ob(key)
+        if meth in conv[k]:
+            continue
+        if meth in all_conv:
+            res.fail(key, f"access: terminals of class {k} are translated by `{meth}`, the handler of another terminal class", am.line(node))
+        else:
+            raise AnalysisError(f"access.call_lookup[{k}] -> `{meth}`: unknown handler name (extend TERMINAL-DISPATCH)")
+    fd, dfn = table(dm, "FFCXBackendDefinitions", "handler_lookup")
+    lin = {"_define_coordinate_dofs_lincomb", "jacobian", "spatial_coordinate"}
+    want = {"Coefficient": {"coefficient"}, "Jacobian": {"_define_coordinate_dofs_lincomb", "jacobian"}, "SpatialCoordinate": {"spatial_coordinate", "_define_coordinate_dofs_lincomb"}}
+    for k, (meth, node) in dfn.items():
+        key = f"{fd.key}:handler_lookup:{k}"
+        res.ob(key)
+        ok = want.get(k, {"pass_through"})
+        if meth in ok:
+            continue
+        if meth in lin | {"coefficient", "pass_through"}:
+            res.fail(key, f"definitions: terminals of class {k} are defined by `{meth}` instead of {sorted(ok)}: "
+                     + ("no definition is emitted for a quantity the kernel reads" if meth == "pass_through" else "a definition for another kind of terminal is emitted"), dm.line(node))
+        else:
+            raise AnalysisError(f"definitions.handler_lookup[{k}] -> `{meth}`: unknown handler name (extend TERMINAL-DISPATCH)")
+    for k in ("Coefficient", "Jacobian", "SpatialCoordinate"):
+        key = f"{fd.key}:handler_lookup:has:{k}"
+        res.ob(key)
+        if k not in dfn:
+            res.fail(key, f"definitions: no handler for {k}", dm.line(fd.node))
+    # nobody rewrites the table reference
+    n = 0
+    for m in repo.modules.values():
+        if not m.name.startswith("ffcx.codegeneration"):
+            continue
+        for f in m.funcs.values():
+            tparams = [p for p in f.params if p in ("tabledata", "td", "table_ref")]
+            if not tparams:
+                continue
+            key = f"{f.key}:table-reference-unchanged"
+            res.ob(key)
+            n += 1
+            for x in ast.walk(f.node):
+                if isinstance(x, (ast.Assign, ast.AugAssign, ast.AnnAssign)):
+                    tg = x.targets if isinstance(x, ast.Assign) else [x.target]
+                    for t in tg:
+                        if isinstance(t, ast.Name) and t.id in tparams:
+                            res.fail(key, f"{f.qualname} rebinds its table reference `{t.id}` (`{ast.unparse(x)[:70]}`): the table's flags (is_permuted, is_uniform, "
+                                     "is_piecewise) and offsets come from the IR; changing them here makes the kernel index another slice than the one tabulated",
+                                     m.line(x))
+                        if isinstance(t, ast.Attribute) and isinstance(t.value, ast.Name) and t.value.id in tparams:
+                            res.fail(key, f"{f.qualname} mutates its table reference (`{ast.unparse(x)[:70]}`)", m.line(x))
+                if isinstance(x, ast.Call) and isinstance(x.func, ast.Attribute) and x.func.attr == "_replace" and isinstance(x.func.value, ast.Name) and x.func.value.id in tparams:
+                    res.fail(key, f"{f.qualname} derives a modified table reference (`{ast.unparse(x)[:70]}`)", m.line(x))
+    if n < 4:
+        raise AnalysisError("fewer than four functions taking a table reference found")
